@@ -3,6 +3,7 @@ CONSTANTS
   N = 3
   Subs = {1}
   TaskOf <- T_1x3
+  Follow <- F_none
   Lazy = TRUE
   Detached = FALSE
   WaitAll = TRUE
